@@ -440,7 +440,7 @@ pub fn run(ctx: &Ctx) -> i32 {
     let pairs = pair_cases(&envir);
     ctx.put("grid_cases", json!(grid.len()));
     ctx.put("operator_pair_cases", json!(pairs.len()));
-    let nrandom = ctx.tier.pick(30_000usize, 3_000_000usize);
+    let nrandom = ctx.tier.pick(30_000usize, 20_000_000usize);
     let depth = ctx.tier.pick(5u32, 8u32);
     ctx.put("random_trees", json!(nrandom));
     let chunks = 64usize;
